@@ -20,7 +20,7 @@ structure Inv (s : St) : Prop where
   /-- once the connection is lost or closed nothing is pending (and `register` fails fast) -/
   down : (s.shutdown = true ∨ s.closing = true) → s.pending = []
 
-theorem inv_init (oneways : List Bool) : Inv (init oneways) := by
+theorem inv_init (oneways : List (Bool × Bool)) : Inv (init oneways) := by
   refine ⟨by simp [init], by simp [init], by simp [init], ?_, ?_, ?_, ?_, ?_, by simp [init]⟩
   · intro c r h
     simp only [init, List.getElem?_map] at h
@@ -286,6 +286,12 @@ theorem inv_failAll (s : St) (h : Inv s) (o : Outcome) : Inv (failAll s o) ∧ (
       have := h.held v r q hv hp hs
       exact absurd (List.mem_map_of_mem (f := (·.2)) this) hnm
 
+theorem inv_setRet (s : St) (h : Inv s) (c : Nat) (o : Outcome) : Inv { s with calls := setRet s.calls c o } :=
+  inv_congr s h _ (fun v => setRet_view s.calls c v o)
+
+theorem inv_markWritten (s : St) (h : Inv s) (c : Nat) : Inv { s with calls := markWritten s.calls c } :=
+  inv_congr s h _ (fun v => markWritten_view s.calls c v)
+
 theorem inv_register (s : St) (h : Inv s) (c : Nat) : Inv (step s (.register c)) := by
   simp only [step]
   cases hr : s.calls[c]? with
@@ -302,13 +308,18 @@ theorem inv_register (s : St) (h : Inv s) (c : Nat) : Inv (step s (.register c))
       · -- fail fast: signal once, never pending
         simp only [hd, if_true]
         have hd' : s.shutdown = true ∨ s.closing = true := by simpa using hd
-        have hget : ∀ v, (setPhase (signal s.calls c .shutdownErr) c .finished)[v]? =
-            if v = c then some { bump .shutdownErr r with phase := .finished } else s.calls[v]? := by
+        generalize (if r.raw = true then Outcome.connErr else Outcome.shutdownErr) = ofail
+        have hget : ∀ v, (setPhase (signal s.calls c ofail) c .finished)[v]? =
+            if v = c then some { bump ofail r with phase := .finished } else s.calls[v]? := by
           intro v
           rw [setPhase_get, signal_get, signal_get]
           by_cases e : v = c
           · subst e; simp [hr]
           · simp [e]
+        suffices base : Inv { s with calls := setPhase (signal s.calls c ofail) c .finished } by
+          split
+          · exact inv_setRet _ base c .connErr
+          · exact base
         refine ⟨h.keys, h.ids, ?_, ?_, ?_, ?_, ?_, ?_, h.down⟩
         · intro q c' hm
           obtain ⟨r', hr', a, b⟩ := h.pend q c' hm
@@ -420,7 +431,11 @@ theorem inv_step (s : St) (h : Inv s) (ev : Ev) : Inv (step s ev) := by
     | some r =>
       simp only
       cases hp : r.phase with
-      | registered q => exact inv_sender_done s h c q _ r hr hp
+      | registered q =>
+        simp only
+        split
+        · exact h
+        · exact inv_sender_done s h c q _ r hr hp
       | fresh => exact h
       | finished => exact h
   | writeFail c =>
@@ -430,7 +445,14 @@ theorem inv_step (s : St) (h : Inv s) (ev : Ev) : Inv (step s ev) := by
     | some r =>
       simp only
       cases hp : r.phase with
-      | registered q => exact inv_sender_done s h c q _ r hr hp
+      | registered q =>
+        have base := inv_sender_done s h c q .connErr r hr hp
+        simp only
+        split
+        · exact h
+        · split
+          · exact inv_setRet _ base c .connErr
+          · exact base
       | fresh => exact h
       | finished => exact h
   | writeOk c =>
@@ -443,8 +465,10 @@ theorem inv_step (s : St) (h : Inv s) (ev : Ev) : Inv (step s ev) := by
       | registered q =>
         simp only
         split
-        · exact inv_sender_done s h c q _ r hr hp
-        · exact h
+        · exact inv_markWritten s h c
+        · split
+          · exact inv_sender_done s h c q _ r hr hp
+          · exact h
       | fresh => exact h
       | finished => exact h
   | ctxDone c =>
@@ -455,7 +479,9 @@ theorem inv_step (s : St) (h : Inv s) (ev : Ev) : Inv (step s ev) := by
       simp only
       split
       · exact h
-      · have h1 : Inv (ctxRemove s c r) := by
+      · split
+        · exact h
+        have h1 : Inv (ctxRemove s c r) := by
           unfold ctxRemove
           cases hp : r.phase with
           | registered q =>
